@@ -19,7 +19,8 @@ Inductive hcase :=
     (* ExternalPersistHelper::new(secret); new_nonce for each of [nonces]; check_hmac *)
 | CValue (secret key : bytes) (ver : N) (val : bytes)          (* prepare_value_for_put *)
 | CGet (secret key : bytes) (ver : N) (stored : bytes)         (* process_value_from_get *)
-| CPair (secret : bytes) (a b : input).                        (* two inputs with one tag *)
+| CPair (secret : bytes) (a b : input)                         (* two inputs with one tag *)
+| CNonces (ns : list bytes).      (* the nonces of one client's consecutive reads, as sent *)
 
 Definition cls_code (c : option cls) : N :=
   match c with
@@ -54,7 +55,8 @@ Fixpoint index_of {A} (e : A -> bool) (i : N) (l : list A) : N :=
     - CValue : [key; message; value]               (stored = value ‖ mac key message)
     - CGet   : [] when shorter than 32, else [key; message; claimed tag; value]
                (accept, returning value, iff claimed tag = mac key message)
-    - CPair  : [[serialisations equal]; [class]; [inputs equal]; [index in witnesses]] *)
+    - CPair  : [[serialisations equal]; [class]; [inputs equal]; [index in witnesses]]
+    - CNonces: [[nonces_fresh]]                    (the premise of the replay theorems) *)
 Definition hquery (c : hcase) : list bytes :=
   match c with
   | CShared s n rs => [s; ser_shared s n rs]
@@ -70,4 +72,5 @@ Definition hquery (c : hcase) : list bytes :=
         [cls_code (in_diff a b)];
         [b2n (beq a b)];
         [index_of (fun w => beq w (a, b)) 1 witnesses] ]
+  | CNonces ns => [[b2n (nonces_fresh ns)]]
   end.
